@@ -169,6 +169,16 @@ def run(ctx, prog, res):
         r8.check(ok, {"fn": new.id, "inference_only_when": "country is None"}, "C12.R8:explicit-country",
                  "holiday inference from coordinates is reachable although a country code was given", lib.where_of(new, t))
 
+    # the country code handed to the core parser is the caller's string itself: the binding adds no leniency of its own
+    # (an upper-cased or trimmed code would be accepted where the core raises UnknownCountryError)
+    cps = [t for _, t in new.calls() if flow.call_name(t).endswith("<impl str>::parse") and "Country" in str(t["callee"].get("path_args", ""))]
+    if not cps:
+        r8.anchor_missing("the parse::<Country>() call in PyOpeningHours::new")
+    for t in cps:
+        shp = flow.shape(new, t["args"][0], depth=6)
+        r8.check(re.fullmatch(r"\*?p3@Some\.0", shp) is not None, {"country_code_parsed": shp, "unmodified": True}, "C12.R8:code-unmodified",
+                 "the country code is not handed to Country::from_str as the caller gave it (%s): the binding accepts codes the core rejects, or rejects codes the core accepts" % shp[:120], lib.where_of(new, t))
+
     # R9 -------------------------------------------------------------------------------------
     r9 = res.rule("C12.R9", "returned datetimes keep the zone of the context: or_with_timezone leaves an aware value unchanged and only localizes naive ones; or_with_timezone_of takes the zone of the input")
     ow = prog.require_fn(DTM + "::or_with_timezone")
